@@ -1,6 +1,7 @@
 (* Hand-written glue between the harness and the extracted model (trusted base).
    Line protocol on stdin/stdout.  One request per line: "<cmd> <tokens...>"; one reply line.
    While a request runs, an oracle closure may print "ASK <query>" and read one answer line. *)
+type ostring = string
 open Model
 
 (* ---------- conversions between wire text and extracted Z / lists ---------- *)
@@ -16,7 +17,7 @@ let hexval c = match c with
   | _ -> failwith "bad hex"
 
 (* big ints on the wire: [-]hex digits *)
-let z_of_hexstr (s : string) : z =
+let z_of_hexstr (s) : z =
   let neg = String.length s > 0 && s.[0] = '-' in
   let start = if neg then 1 else 0 in
   (* build positive from most significant bit down *)
@@ -32,7 +33,7 @@ let z_of_hexstr (s : string) : z =
   done;
   match !acc with None -> Z0 | Some p -> if neg then Zneg p else Zpos p
 
-let hexstr_of_z (x : z) : string =
+let hexstr_of_z (x : z) =
   let bits_of_pos p =
     let rec go p acc = match p with XH -> 1 :: acc | XO q -> go q (0 :: acc) | XI q -> go q (1 :: acc) in
     (* go builds most-significant-first because we prepend while walking from LSB: fix order *)
@@ -52,22 +53,22 @@ let hexstr_of_z (x : z) : string =
   | Zpos p -> hex_of_bits (bits_of_pos p)
   | Zneg p -> "-" ^ hex_of_bits (bits_of_pos p)
 
-let bytes_of_hex (s : string) : z list =
+let bytes_of_hex (s) : z list =
   let n = String.length s / 2 in
   List.init n (fun i -> ztab.(hexval s.[2*i] * 16 + hexval s.[2*i+1]))
-let hex_of_bytes (l : z list) : string =
+let hex_of_bytes (l : z list) =
   let buf = Buffer.create 64 in
   List.iter (fun b -> let v = int_of_z b in
     if v < 0 || v > 255 then Buffer.add_string buf (Printf.sprintf "<%d>" v)
     else Buffer.add_string buf (Printf.sprintf "%02x" v)) l;
   Buffer.contents buf
 
-let str_of_cps (s : string) : z list =   (* "12.34.56" -> code points *)
+let str_of_cps (s) : z list =   (* "12.34.56" -> code points *)
   if s = "" then [] else List.map (fun t -> z_of_int (int_of_string t)) (String.split_on_char '.' s)
-let cps_of_str (l : z list) : string = String.concat "." (List.map (fun c -> string_of_int (int_of_z c)) l)
+let cps_of_str (l : z list) = String.concat "." (List.map (fun c -> string_of_int (int_of_z c)) l)
 
 (* ---------- token stream ---------- *)
-let toks : string list ref = ref []
+let toks : ostring list ref = ref []
 let next () = match !toks with t :: r -> toks := r; t | [] -> failwith "out of tokens"
 let strip_prefix pfx t =
   let n = String.length pfx in
@@ -89,7 +90,7 @@ let pr_opt f = function None -> "N" | Some x -> "Y " ^ f x
 let pr_list f l = string_of_int (List.length l) ^ String.concat "" (List.map (fun x -> " " ^ f x) l)
 
 (* ---------- oracle queries (synchronous ASK) ---------- *)
-let ask (q : string) : string =
+let ask (q) =
   print_string ("ASK " ^ q ^ "\n"); flush stdout;
   input_line stdin
 
@@ -111,13 +112,162 @@ let py_name = function
 let pr_exn = function Lib c -> "Lib:" ^ lib_name c | Py k -> "Py:" ^ py_name k | Unmodelled -> "Unmodelled"
 let pr_res f = function Ok a -> "OK " ^ f a | Err e -> "ERR " ^ pr_exn e
 
+(* ---------- JSON / CBOR / keys on the wire ---------- *)
+let rec rd_json () : json =
+  match next () with
+  | "jn" -> JNull | "jt" -> JBool true | "jf" -> JBool false
+  | "ji" -> JInt (rd_int ()) | "jd" -> JFloat (rd_int ())
+  | "js" -> JStr (rd_str ())
+  | "ja" -> let n = rd_nat () in JArr (List.init n (fun _ -> rd_json ()))
+  | "jo" -> let n = rd_nat () in JObj (List.init n (fun _ -> let k = rd_str () in let v = rd_json () in (k, v)))
+  | t -> failwith ("json token " ^ t)
+let rec pr_json (j : json) =
+  match j with
+  | JNull -> "jn" | JBool true -> "jt" | JBool false -> "jf"
+  | JInt z -> "ji " ^ pr_int z | JFloat z -> "jd " ^ pr_int z
+  | JStr s -> "js " ^ pr_str s
+  | JArr l -> "ja " ^ pr_list pr_json l
+  | JObj m -> "jo " ^ pr_list (fun (k, v) -> pr_str k ^ " " ^ pr_json v) m
+
+let rec rd_cbor () : cbor =
+  match next () with
+  | "ci" -> CInt (rd_int ()) | "cb" -> CBytes (rd_bytes ()) | "ct" -> CText (rd_bytes ())
+  | "ca" -> let n = rd_nat () in CArr (List.init n (fun _ -> rd_cbor ()))
+  | "cm" -> let n = rd_nat () in CMap (List.init n (fun _ -> let k = rd_cbor () in let v = rd_cbor () in (k, v)))
+  | "cT" -> CBool true | "cF" -> CBool false | "cn" -> CNull | "cu" -> CUndef
+  | t -> failwith ("cbor token " ^ t)
+let rec pr_cbor (c : cbor) =
+  match c with
+  | CInt z -> "ci " ^ pr_int z | CBytes b -> "cb " ^ pr_bytes b | CText b -> "ct " ^ pr_bytes b
+  | CArr l -> "ca " ^ pr_list pr_cbor l
+  | CMap m -> "cm " ^ pr_list (fun (k, v) -> pr_cbor k ^ " " ^ pr_cbor v) m
+  | CBool true -> "cT" | CBool false -> "cF" | CNull -> "cn" | CUndef -> "cu"
+
+let pr_hash = function SHA1 -> "SHA1" | SHA256 -> "SHA256" | SHA384 -> "SHA384" | SHA512 -> "SHA512"
+let pr_scheme = function
+  | ECDSA h -> "ECDSA-" ^ pr_hash h | PKCS1 h -> "PKCS1-" ^ pr_hash h | PSS h -> "PSS-" ^ pr_hash h | ED25519 -> "ED25519"
+let pr_key = function
+  | PkEC (c, x, y) -> "EC " ^ pr_int c ^ " " ^ pr_int x ^ " " ^ pr_int y
+  | PkRSA (n, e) -> "RSA " ^ pr_int n ^ " " ^ pr_int e
+  | PkEd x -> "ED " ^ pr_bytes x
+  | PkOther t -> "OTHER " ^ pr_int t
+
+(* ---------- answers to ASK: parsed with a private token cursor ---------- *)
+let with_tokens (line) (f : unit -> 'a) : 'a =
+  let saved = !toks in
+  toks := List.filter (fun t -> t <> "") (String.split_on_char ' ' line);
+  let r = (try f () with e -> toks := saved; raise e) in
+  toks := saved; r
+
+let rd_key () : pubkey =
+  match next () with
+  | "EC" -> let c = rd_int () in let x = rd_int () in let y = rd_int () in PkEC (c, x, y)
+  | "RSA" -> let n = rd_int () in let e = rd_int () in PkRSA (n, e)
+  | "ED" -> PkEd (rd_bytes ())
+  | "OTHER" -> PkOther (rd_int ())
+  | t -> failwith ("key token " ^ t)
+
+let rd_cert () : cert =
+  let key = rd_key () in
+  let spki = rd_bytes () in
+  let pem = rd_bytes () in
+  let version = rd_int () in
+  let subject_len = rd_int () in
+  let cns = rd_list rd_str in
+  let san = (match next () with
+    | "ABSENT" -> SanAbsent | "EMPTY" -> SanEmpty | "NOTDIR" -> SanNotDirectory
+    | "DIR" -> SanDir (rd_list (fun () -> let o = rd_str () in let v = rd_str () in (o, v)))
+    | t -> failwith ("san " ^ t)) in
+  let eku = rd_opt (fun () -> rd_list rd_str) in
+  let bc = rd_opt rd_bool in
+  let apple = rd_opt rd_bytes in
+  let android = rd_opt (fun () -> rd_opt (fun () ->
+    let ch = rd_bytes () in let sw = rd_bool () in let tee = rd_bool () in
+    let org = rd_opt rd_int in let pur = rd_opt (fun () -> rd_list rd_int) in
+    { kd_challenge = ch; kd_sw_all_apps = sw; kd_tee_all_apps = tee; kd_tee_origin = org; kd_tee_purpose = pur })) in
+  { c_key = key; c_spki = spki; c_pem = pem; c_version = version; c_subject_len = subject_len;
+    c_subject_cns = cns; c_san = san; c_eku = eku; c_basic_ca = bc; c_apple_ext = apple; c_android_ext = android }
+
+let the_oracles : oracles = {
+  o_hash = (fun h d -> with_tokens (ask ("hash " ^ pr_hash h ^ " " ^ pr_bytes d)) rd_bytes);
+  o_json_loads = (fun is_text d ->
+    let q = if is_text then "json T " ^ pr_str d else "json F " ^ pr_bytes d in
+    with_tokens (ask q) (fun () -> match next () with
+      | "OK" -> JOk (rd_json ()) | "DECODE" -> JDecodeError | "UNICODE" -> JUnicodeError | _ -> JOtherError));
+  o_key_ok = (fun k -> with_tokens (ask ("keyok " ^ pr_key k)) rd_bool);
+  o_verify = (fun k sch sg msg ->
+    with_tokens (ask ("verify " ^ pr_key k ^ " " ^ pr_scheme sch ^ " " ^ pr_bytes sg ^ " " ^ pr_bytes msg)) rd_bool);
+  o_spki = (fun k -> with_tokens (ask ("spki " ^ pr_key k)) rd_bytes);
+  o_cert = (fun der -> with_tokens (ask ("cert " ^ pr_bytes der)) (fun () -> rd_opt rd_cert));
+  o_chain = (fun now x5c roots ->
+    with_tokens (ask ("chain " ^ pr_int now ^ " " ^ pr_list pr_bytes x5c ^ " " ^ pr_list pr_bytes roots))
+      (fun () -> match next () with "OK" -> ChainOk | "INVALID" -> ChainInvalid | _ -> ChainOtherError));
+}
+
+(* ---------- structured inputs ---------- *)
+let rd_origin () : origin_exp =
+  match next () with
+  | "S" -> OSingle (rd_str ()) | "M" -> OMany (rd_list rd_str) | t -> failwith ("origin " ^ t)
+let rd_auth_policy () : auth_policy =
+  let ch = rd_bytes () in let rp = rd_str () in let org = rd_origin () in
+  let pk = rd_bytes () in let cnt = rd_int () in let uv = rd_bool () in
+  { ap_challenge = ch; ap_rp_id = rp; ap_origin = org; ap_pubkey = pk; ap_count = cnt; ap_require_uv = uv }
+let rd_auth_cred () : auth_cred cred_in =
+  match next () with
+  | "T" -> InText (rd_str ()) | "D" -> InDict (rd_json ())
+  | "R" ->
+    let id = rd_str () in let raw = rd_bytes () in let ty = rd_str () in
+    let cdj = rd_bytes () in let ad = rd_bytes () in let sg = rd_bytes () in
+    let uh = rd_opt rd_bytes in let att = rd_opt rd_str in
+    InRec { acr_id = id; acr_raw_id = raw; acr_type = ty; acr_client_data = cdj; acr_auth_data = ad;
+            acr_signature = sg; acr_user_handle = uh; acr_attachment = att }
+  | t -> failwith ("cred " ^ t)
+let rd_text_or_json () = match next () with
+  | "T" -> Inl (rd_str ()) | "D" -> Inr (rd_json ()) | t -> failwith ("T/D " ^ t)
+
+let pr_auth_data (a : auth_data) =
+  pr_bytes a.ad_rp_hash ^ " " ^ pr_int a.ad_flags ^ " " ^ pr_int a.ad_count ^ " "
+  ^ pr_opt (fun c -> pr_bytes c.ac_aaguid ^ " " ^ pr_bytes c.ac_cred_id ^ " " ^ pr_bytes c.ac_pubkey) a.ad_att ^ " "
+  ^ pr_opt pr_bytes a.ad_ext
+let pr_client_data (c : client_data) =
+  pr_json c.cd_type ^ " " ^ pr_bytes c.cd_challenge ^ " " ^ pr_json c.cd_origin ^ " " ^ pr_opt pr_json c.cd_token_binding
+let pr_auth_cred (c : auth_cred) =
+  pr_str c.acr_id ^ " " ^ pr_bytes c.acr_raw_id ^ " " ^ pr_str c.acr_type ^ " " ^ pr_bytes c.acr_client_data ^ " "
+  ^ pr_bytes c.acr_auth_data ^ " " ^ pr_bytes c.acr_signature ^ " " ^ pr_opt pr_bytes c.acr_user_handle ^ " "
+  ^ pr_opt pr_str c.acr_attachment
+let pr_reg_cred (c : reg_cred) =
+  pr_str c.rcr_id ^ " " ^ pr_bytes c.rcr_raw_id ^ " " ^ pr_str c.rcr_type ^ " " ^ pr_bytes c.rcr_client_data ^ " "
+  ^ pr_bytes c.rcr_att_obj ^ " " ^ pr_opt (pr_list pr_str) c.rcr_transports ^ " " ^ pr_opt pr_str c.rcr_attachment
+let pr_decoded_key = function
+  | DOKP (a, c, x) -> "OKP " ^ pr_cbor a ^ " " ^ pr_cbor c ^ " " ^ pr_cbor x
+  | DEC2 (a, c, x, y) -> "EC2 " ^ pr_cbor a ^ " " ^ pr_cbor c ^ " " ^ pr_cbor x ^ " " ^ pr_cbor y
+  | DRSA (a, n, e) -> "RSA " ^ pr_cbor a ^ " " ^ pr_cbor n ^ " " ^ pr_cbor e
+let pr_verified_auth (v : verified_auth) =
+  pr_bytes v.va_cred_id ^ " " ^ pr_int v.va_new_count ^ " " ^ pr_bool v.va_multi_device ^ " "
+  ^ pr_bool v.va_backed_up ^ " " ^ pr_bool v.va_uv
+
 (* ---------- dispatch ---------- *)
-let dispatch (cmd : string) : string =
+let dispatch (cmd) =
   match cmd with
   | "ping" -> "pong"
   | "b64enc" -> pr_str (b64url_enc (rd_bytes ()))
   | "b64dec" -> pr_res pr_bytes (b64url_dec (rd_str ()))
   | "b64std" -> pr_str (b64std_enc (rd_bytes ()))
+  | "cborload" -> (match cbor_loads (rd_bytes ()) with
+      | DOk (v, r) -> "OK " ^ pr_cbor v ^ " " ^ pr_bytes r | DErr -> "ERR Lib:InvalidCBORData" | DUnm -> "ERR Unmodelled")
+  | "cbordump" -> pr_bytes (cbor_enc (rd_cbor ()))
+  | "authdata" -> pr_res pr_auth_data (parse_auth_data (rd_bytes ()))
+  | "backupflags" -> let be = rd_bool () in let bs = rd_bool () in
+      pr_res (fun (a, b) -> pr_bool a ^ " " ^ pr_bool b) (parse_backup_flags be bs)
+  | "aaguid" -> pr_res pr_str (aaguid_to_string (rd_bytes ()))
+  | "clientdata" -> pr_res pr_client_data (parse_client_data the_oracles (rd_bytes ()))
+  | "authcred" -> pr_res pr_auth_cred (parse_auth_cred_json the_oracles (rd_text_or_json ()))
+  | "regcred" -> pr_res pr_reg_cred (parse_reg_cred_json the_oracles (rd_text_or_json ()))
+  | "decodekey" -> pr_res pr_decoded_key (decode_credential_public_key (rd_bytes ()))
+  | "tocrypto" -> pr_res pr_key (bind (decode_credential_public_key (rd_bytes ())) (to_crypto the_oracles))
+  | "verifyauth" -> let p = rd_auth_policy () in let c = rd_auth_cred () in
+      pr_res pr_verified_auth (verify_auth the_oracles p c)
+  | "counterok" -> let s = rd_int () in let c = rd_int () in pr_bool (counter_ok s c)
   | _ -> "DRIVER-ERROR unknown command " ^ cmd
 
 let () =
